@@ -1799,6 +1799,88 @@ func incrChild(c caseIn) tornResult {
 	return res
 }
 
+// listrace: RemoveFromList racing AppendToList on ONE large list (child process, like incr).  One goroutine appends and removes
+// a marker member M times, another appends unique members.  Every call is one atomic operation, so afterwards the list is
+// exactly: the base members, every unique member once (in append order), no marker.
+func listraceChild(c caseIn) tornResult {
+	var st kv
+	switch c.Backend {
+	case "redis":
+		side := newRedisSide(100)
+		defer side.close()
+		st = side.st
+	case "hybrid":
+		h, done := newHybrid()
+		defer done()
+		st = h
+	default:
+		m := memory.New(context.Background())
+		defer m.Close()
+		st = m
+	}
+	n, rounds := c.Fill, c.Reads
+	k := "biglist"
+	base := make([]any, n)
+	for i := range base {
+		base[i] = "b" + strconv.Itoa(i)
+	}
+	must(st.SetList(k, base, 0))
+	var wg sync.WaitGroup
+	var ready int32
+	gate := func() {
+		atomic.AddInt32(&ready, 1)
+		for atomic.LoadInt32(&ready) < 2 {
+		}
+	}
+	wg.Add(2)
+	go func() {
+		defer wg.Done()
+		gate()
+		for i := 0; i < rounds; i++ {
+			_ = st.AppendToList(k, "MARK")
+			_ = st.RemoveFromList(k, "MARK")
+		}
+	}()
+	go func() {
+		defer wg.Done()
+		gate()
+		for i := 0; i < rounds; i++ {
+			_ = st.AppendToList(k, "u"+strconv.Itoa(i))
+		}
+	}()
+	wg.Wait()
+	got, err := st.GetList(k)
+	must(err)
+	res := tornResult{OK: true, Reads: rounds, Writes: int64(3 * rounds)}
+	lost, marks, next := 0, 0, 0
+	seen := map[string]int{}
+	for _, x := range got {
+		s, _ := x.(string)
+		seen[s]++
+		if s == "MARK" {
+			marks++
+		}
+	}
+	for i := 0; i < n; i++ {
+		if seen["b"+strconv.Itoa(i)] != 1 {
+			lost++
+		}
+	}
+	for i := 0; i < rounds; i++ {
+		if seen["u"+strconv.Itoa(i)] != 1 {
+			lost++
+			if next == 0 {
+				next = i + 1
+			}
+		}
+	}
+	if lost > 0 || marks > 0 || len(got) != n+rounds {
+		res.OK = false
+		res.Msg = fmt.Sprintf("%s: {AppendToList(MARK); RemoveFromList(MARK)} x %d racing %d AppendToList(u_i) on a %d-member list: %d members missing or duplicated (first u%d), %d markers left, %d members instead of %d — completed appends were lost", c.Backend, rounds, rounds, n, lost, next-1, marks, len(got), n+rounds)
+	}
+	return res
+}
+
 func runTorn(raw []byte, c caseIn) *caseOut {
 	out := &caseOut{PropOK: true, FailAt: -1, ShapeEnd: -1}
 	exe, err := os.Executable()
@@ -1816,6 +1898,10 @@ func runTorn(raw []byte, c caseIn) *caseOut {
 	if c.Mode == "incr" {
 		what = fmt.Sprintf("%d goroutines x %d IncrBy on one existing counter (%s)", c.Fill, c.Reads, c.Backend)
 		keyBase = "incr:" + c.Backend + ":concurrent-increments"
+	}
+	if c.Mode == "listrace" {
+		what = fmt.Sprintf("RemoveFromList racing AppendToList on one %d-member list (%s)", c.Fill, c.Backend)
+		keyBase = "listrace:" + c.Backend + ":remove-vs-append"
 	}
 	if runErr != nil {
 		head := ""
@@ -1845,7 +1931,7 @@ func runTorn(raw []byte, c caseIn) *caseOut {
 	}
 	if !res.OK {
 		out.PropOK = false
-		if c.Mode == "incr" {
+		if c.Mode == "incr" || c.Mode == "listrace" {
 			out.PropKey = keyBase + ":lost-update"
 			out.PropMsg = res.Msg
 		} else {
@@ -1876,7 +1962,7 @@ func runCase(raw []byte) *caseOut {
 		return runUpgrade(c)
 	case "iso":
 		return runIso(c)
-	case "torn", "incr":
+	case "torn", "incr", "listrace":
 		return runTorn(raw, c)
 	}
 	panic("unknown mode " + c.Mode)
@@ -1892,6 +1978,10 @@ func main() {
 		must(json.NewDecoder(os.Stdin).Decode(&c))
 		if c.Mode == "incr" {
 			must(json.NewEncoder(os.Stdout).Encode(incrChild(c)))
+			return
+		}
+		if c.Mode == "listrace" {
+			must(json.NewEncoder(os.Stdout).Encode(listraceChild(c)))
 			return
 		}
 		must(json.NewEncoder(os.Stdout).Encode(tornChild(c)))
@@ -1931,7 +2021,7 @@ func main() {
 				Mode string `json:"mode"`
 			}
 			_ = json.Unmarshal(lines[i], &probe)
-			if probe.Mode == "conc" || probe.Mode == "sweep" || probe.Mode == "torn" || probe.Mode == "incr" {
+			if probe.Mode == "conc" || probe.Mode == "sweep" || probe.Mode == "torn" || probe.Mode == "incr" || probe.Mode == "listrace" {
 				concMu.Lock()
 				defer concMu.Unlock()
 			}
